@@ -28,6 +28,7 @@ def plan(tier, seed, excl, mode=MODE):
             for sh in range(of):
                 t.append(('enum', {'init': ii, 'depth': d, 'shard': sh, 'of': of}))
     if q and mode == 'id':
+        # (the id observations are cheap enough for one initial grid to depth 4 in the quick tier as well)
         t += [('enum', {'init': 1, 'depth': 4, 'shard': sh, 'of': 16}) for sh in range(16)]
     t += [('machine', {'shard': i, 'n': 600 if q else 12000}) for i in range(8)]
     return t
